@@ -450,9 +450,15 @@ func HoudiniLocked(p *Program, fn *ssa.Function, mode GenMode, opts SolveOpts, s
 	var g *Gen
 	for round := 0; round < 6; round++ {
 		mu.Lock()
+		tg := time.Now()
 		g = GenerateFixpoint(p, fn, mode, dropped)
 		mu.Unlock()
+		genT := time.Since(tg)
+		ts := time.Now()
 		SolveGen(g, opts, stats)
+		if os.Getenv("VERIF_TIMING") != "" {
+			fmt.Fprintf(os.Stderr, "timing %s round %d: generate %.1fs solve %.1fs (%d obligations)\n", g.FnName(), round, genT.Seconds(), time.Since(ts).Seconds(), len(g.Obls))
+		}
 		again := false
 		for _, o := range g.Obls {
 			if (o.Kind == "auto-init" || o.Kind == "auto-pres") && o.Status != "proved" {
